@@ -32,8 +32,8 @@ pub fn slots_for(len: usize) -> u64 {
 pub enum AState {
     Watched,
     Responded { penalty: Txid },
-    /// Node said "already in chain" (-27): the statement leaves open whether the tower keeps
-    /// watching or tracks; both are admissible.
+    /// (No longer produced: "already in chain" (-27) at the first submission used to admit both
+    /// "still watched" and "tracked"; since fix 3eaadf0 the tower tracks, which is what C03/C04 need.)
     Either { penalty: Txid },
 }
 
@@ -64,6 +64,8 @@ pub struct Spec {
     pub height: u32,
     pub tip: BlockHash,
     pub recent: VecDeque<BlockHash>,
+    /// The (at most) 100 blocks the Responder's index should hold, by the same list semantics.
+    pub recent100: VecDeque<BlockHash>,
     pub users: BTreeMap<u8, SUser>,
     pub appts: BTreeMap<(u8, u8), SAppt>,
     pub last_event_was_disconnect: bool,
@@ -95,6 +97,7 @@ impl Spec {
             height: 0,
             tip: w.env.lock().tip,
             recent: VecDeque::new(),
+            recent100: VecDeque::new(),
             users: BTreeMap::new(),
             appts: BTreeMap::new(),
             last_event_was_disconnect: false,
@@ -116,6 +119,14 @@ impl Spec {
             v.push_front(cur);
             cur = e.block.header.prev_blockhash;
         }
+        let mut cur = tip;
+        let mut v100 = VecDeque::new();
+        for _ in 0..100 {
+            let e = env.entry(&cur).unwrap();
+            v100.push_front(cur);
+            cur = e.block.header.prev_blockhash;
+        }
+        self.recent100 = v100;
         self.height = env.entry(&tip).unwrap().height;
         self.tip = tip;
         self.recent = v;
@@ -258,10 +269,78 @@ impl Spec {
             });
         }
         self.compare_db(obs, w, &mut out);
+        self.compare_recent_blocks(w, &mut out);
         if !out.is_empty() {
             self.lost = true;
         }
         out
+    }
+
+    /// C19 on the live tower: the Watcher's locator cache and the Responder's transaction index hold
+    /// exactly the last 6 / 100 blocks delivered (and not disconnected since), with exactly their
+    /// transactions, and report the height of the last held block.
+    fn compare_recent_blocks(&self, w: &World, out: &mut Vec<Viol>) {
+        let t = match (&w.tower, w.dead) {
+            (Some(t), false) => t,
+            _ => return,
+        };
+        let snaps = std::panic::catch_unwind(std::panic::AssertUnwindSafe(|| (t.watcher.verif_snapshot(), t.responder.verif_snapshot())));
+        let (ws, rs) = match snaps {
+            Ok(x) => x,
+            Err(_) => return, // poisoned mutex: reported by the liveness oracles
+        };
+        let env = w.env.lock();
+        for (what, snap, expected, by_locator) in [("locator-cache", &ws, &self.recent, true), ("tx-index", &rs, &self.recent100, false)] {
+            let body = match snap.find("blocks=[").and_then(|i| snap[i + 8..].find("] index=").map(|j| &snap[i + 8..i + 8 + j])) {
+                Some(b) => b,
+                None => continue,
+            };
+            let held: Vec<(String, String)> = body.split(';').filter(|e| e.len() > 64).map(|e| (e[..64].to_owned(), e[65..].to_owned())).collect();
+            let want: Vec<String> = expected.iter().map(|h| h.to_string()).collect();
+            let got: Vec<String> = held.iter().map(|(h, _)| h.clone()).collect();
+            if got != want {
+                let h = |v: &Vec<String>| v.iter().map(|x| env.entry(&x.parse().unwrap()).map(|e| e.height.to_string()).unwrap_or_else(|| "?".into())).collect::<Vec<_>>().join(",");
+                out.push(Viol {
+                    props: &["C19"],
+                    sig: format!("recent-blocks:{what}:holds-other-blocks-than-the-last-{}-of-the-active-chain", if by_locator { 6 } else { 100 }),
+                    detail: format!("{what} holds blocks at heights [{}] ({} blocks), expected [{}] ({} blocks)", h(&got), got.len(), h(&want), want.len()),
+                });
+                continue;
+            }
+            for (hash, keys) in held.iter() {
+                let e = match env.entry(&hash.parse().unwrap()) {
+                    Some(e) => e,
+                    None => continue,
+                };
+                let mut want_keys: Vec<String> = e
+                    .block
+                    .txdata
+                    .iter()
+                    .map(|tx| if by_locator { format!("{:?}", Locator::new(tx.compute_txid())) } else { format!("{:?}", tx.compute_txid()) })
+                    .collect();
+                want_keys.sort();
+                want_keys.dedup();
+                if *keys != format!("{want_keys:?}") {
+                    out.push(Viol {
+                        props: &["C19"],
+                        sig: format!("recent-blocks:{what}:wrong-transactions-for-a-held-block"),
+                        detail: format!("{what}: block at height {} maps to {keys}, its transactions are {want_keys:?}", e.height),
+                    });
+                    break;
+                }
+            }
+            let tip_field: Option<u32> = snap.find("tip=").and_then(|i| snap[i + 4..].split(' ').next().and_then(|x| x.parse().ok()));
+            let want_tip = expected.back().and_then(|h| env.entry(h)).map(|e| e.height);
+            if let (Some(a), Some(b)) = (tip_field, want_tip) {
+                if a != b {
+                    out.push(Viol {
+                        props: &["C19"],
+                        sig: format!("recent-blocks:{what}:height-off-by={}", a as i64 - b as i64),
+                        detail: format!("{what} says its last block is at height {a}, it is at {b}"),
+                    });
+                }
+            }
+        }
     }
 
     fn boot_tip_without_lkb(&self, w: &World, obs: &StepObs) -> BlockHash {
@@ -521,7 +600,9 @@ impl Spec {
                         self.appts.insert((u, k), new);
                     }
                     Some(Verdict::InChain) => {
-                        new.state = AState::Either { penalty: ptxid };
+                        // in a block the tower has not processed yet: tracked like an accepted one (the
+                        // confirmation is recorded when the tower gets there)
+                        new.state = AState::Responded { penalty: ptxid };
                         self.appts.insert((u, k), new);
                     }
                     Some(Verdict::Rejected) => {
@@ -660,6 +741,9 @@ impl Spec {
                     if self.recent.back() == Some(&hash) {
                         self.recent.pop_back();
                     }
+                    if self.recent100.back() == Some(&hash) {
+                        self.recent100.pop_back();
+                    }
                     let prev = w.env.lock().entry(&hash).map(|e| e.block.header.prev_blockhash);
                     if let Some(p) = prev {
                         self.tip = p;
@@ -689,6 +773,10 @@ impl Spec {
                     self.recent.push_back(hash);
                     if self.recent.len() > 6 {
                         self.recent.pop_front();
+                    }
+                    self.recent100.push_back(hash);
+                    if self.recent100.len() > 100 {
+                        self.recent100.pop_front();
                     }
                     // C09: purge at height >= expiry + grace
                     let purged: Vec<u8> = self
@@ -747,7 +835,9 @@ impl Spec {
                                         e.last_sent_h = h;
                                     }
                                     Some(Verdict::InChain) => {
-                                        self.appts.get_mut(&(u, k)).unwrap().state = AState::Either { penalty: ptxid };
+                                        let e = self.appts.get_mut(&(u, k)).unwrap();
+                                        e.state = AState::Responded { penalty: ptxid };
+                                        e.last_sent_h = h;
                                     }
                                     Some(Verdict::Rejected) => {
                                         self.appts.remove(&(u, k));
